@@ -129,6 +129,10 @@ class Spec:
         else:
             res = o.result(c, E) if o.result is not None else NONE
         for lbl, b in o.post(c, E, res):
+            if b is False:
+                # a contract that cannot be satisfied at a call site would silently end the path
+                raise Unsupported('contract of %s: outcome %s has no satisfiable result here (%s)'
+                                  % (short, o.label, lbl), node)
             c.assume(b)
         if o.kind == 'raise':
             raise RaiseSig(res)
